@@ -152,3 +152,40 @@ impl StateDriver {
         update.verif_counts()
     }
 }
+
+/// The synchronous forwarder's client state machine (`forwarder::sync::ClientState`), starting `Disconnected` as in
+/// `Forwarder::new`, over a `ForwarderConfiguration` built from the given remote address.
+pub struct ForwarderClient {
+    inner: crate::forwarder::sync::VerifClient,
+    length_prefixed: bool,
+}
+
+impl ForwarderClient {
+    /// `remote_addr` is parsed like `DogStatsDBuilder::with_remote_address` does (`RemoteAddr::try_from`).
+    pub fn new(remote_addr: &str, max_payload_len: usize, write_timeout: std::time::Duration) -> Result<Self, String> {
+        let remote_addr = crate::forwarder::RemoteAddr::try_from(remote_addr)?;
+        let config = crate::forwarder::ForwarderConfiguration {
+            remote_addr,
+            max_payload_len,
+            flush_interval: std::time::Duration::from_secs(1),
+            write_timeout,
+        };
+        let length_prefixed = config.is_length_prefixed();
+        Ok(ForwarderClient { inner: crate::forwarder::sync::VerifClient::new(config), length_prefixed })
+    }
+
+    /// `ForwarderConfiguration::is_length_prefixed` of the configuration.
+    pub fn is_length_prefixed(&self) -> bool {
+        self.length_prefixed
+    }
+
+    /// `ClientState::try_send`, exactly what `Forwarder::run` calls for every payload.
+    pub fn try_send(&mut self, payload: &[u8]) -> std::io::Result<usize> {
+        self.inner.try_send(payload)
+    }
+
+    /// Whether the client state is `Ready` (holds a socket).
+    pub fn is_ready(&self) -> bool {
+        self.inner.is_ready()
+    }
+}
